@@ -37,7 +37,7 @@ StagesNarrow == {
 StagesWide == StagesNarrow \cup {
   Stage("chunked", "", 3, 1, 0, N0), St("unique", "mod2"),
   St("map", "dup"), St("map", "T"), St("map", "stop_at2"), St("filter", "odd"), St("filter", "lt2"),
-  Slice("slice", 1, 4, 1), Slice("slice", 1, -1, 2), Slice("slice", 2, 3, 1), Slice("slice", 2, 1, 1), Slice("limit", 0, 0, 1),
+  Slice("slice", 1, 4, 1), Slice("slice", 1, -1, 2), Slice("slice", 2, 3, 1), Slice("slice", 2, 1, 1), Slice("limit", 0, 0, 1), Slice("slice1", 0, 3, 1),
   St("takewhile", "T"), St("dropwhile", "T"), St("dropwhile", "odd"),
   Stage("chunked", "", 2, 1, 0, VInt(0)), Stage("windowed", "", 3, 0, 0, N0), Stage("windowed", "", 1, 0, 0, N0),
   Stage("split", "scalar", 0, 1, 0, VInt(0)), Stage("split", "set", 0, -1, 0, N0), Stage("split", "none", 0, 2, 0, N0) }
@@ -157,7 +157,10 @@ BuildPred(os, cs) ==
                THEN [p \in 1..Len(Probes) |-> LET X == Out(mn.pipe, Probes[p], TRUE) IN [xs |-> X.xs, bad |-> X.bad]]
                ELSE <<>>]]
 BBases == { BaseStage("T", STOP, FALSE), BaseStage("T", VInt(0), TRUE), BaseStage("skip_odd", VInt(3), TRUE) }
-IterMeths == { IterMeth(St("map", "inc")), IterMeth(Slice("limit", 0, 2, 1)), IterMeth(St("filter", "T")),
+\* (limit / single-argument slice with different small parameters, so that histories apply the same
+\*  kind twice in a row with a decreasing parameter to a prefix that is then re-used)
+IterMeths == { IterMeth(St("map", "inc")), IterMeth(Slice("limit", 0, 2, 1)), IterMeth(Slice("limit", 0, 1, 1)),
+               IterMeth(Slice("slice1", 0, 3, 1)), IterMeth(St("filter", "T")),
                IterMeth(Stage("chunked", "", 2, 0, 0, N0)) }
 KA == VStr("a")
 KB == VStr("b")
